@@ -21,6 +21,17 @@
               harness/c13_known_sites.json (or `match.expr` of the entry); findings proposed by triage round 5 and not yet
               merged / repaired upstream are read from reports/C13-known-findings-5.json.  A timeout is matched the same
               way: the runner reports the innermost jmc frame in which the alarm fired.
+ round 4      (strengthening) vanilla macros `$(name)`: Props/C13.v C13_macro_* about Model/TokMacro.v (merge_vanilla_macro and the
+              loops of condition_to_ast / _is_vanilla_func / FuncContent that call it while the list shrinks), tied by
+              c13_run.py op "macro": every traced call of the real method while generated programs compile, and direct calls
+              on the tokens of condition texts at every position from -3 to len + 2, compared token by token with the model
+              (Run/C13.v mmismatches); the regenerated guard table now covers merge_vanilla_macro, merge_tokens,
+              condition_to_ast, find_operator, custom_condition, FuncContent.__optimize / __parse_commands / __expect_command
+              with call-site obligations for the preconditions (key_pos >= 0, non-empty token lists); generators:
+              c13_gen.vanilla_macros (1..3 macros at every operand position of every condition form under every construct,
+              selectors, scores, NBT paths, call arguments, `$`-statements; all spellings), macro_cond corpus statements,
+              whole macro operands in the replacement alphabet; custom_commands / self_reference / new_json / builtin_pairs
+              streams for the side findings
  round 5      (c13_gen.py, c13_mut.py) header-line neighbourhood (every line: delete / duplicate / swap / move to the end /
               blank and comment-only forms / cut after each token / appended token), head-of-statement insertions and
               replacements by every operator / symbol, sources that END in every token kind without `;` (incl. the macro
@@ -32,6 +43,7 @@
 """
 from __future__ import annotations
 
+import hashlib
 import json
 import os
 import re
@@ -41,7 +53,8 @@ from lib import (Check, COMMON_TRUSTED, NCPU, REPO, VERIF, GEN, compile_batch, e
 from c13_corpus import corpus_c13, macro_names, FULL_CERT
 from c13_mut import mutants, contexts, head_end_mutants, header_line_mutants, ALPHABET, STRING_ALPHABET, HEAD_SYMBOLS, END_TOKENS
 import c13_gen
-from c14_lib import COQ_HEADER, call_encodable, env_term, space_ranges, tcase_term
+from c14_lib import COQ_HEADER, call_encodable, encodable, env_term, space_ranges, tcase_term
+from lib import coq_str, coq_z, coq_bool, coq_list
 import translate_guards as tg
 
 PROP = "C13"
@@ -52,6 +65,7 @@ BASELINE = VERIF / "harness" / "c13_guards_baseline.json"
 KNOWN_SITES = VERIF / "harness" / "c13_known_sites.json"          # finding id -> failing expressions of its crash sites
 PROPOSED = VERIF / "reports" / "C13-known-findings-5.json"        # findings of triage round 5: not yet merged, or repaired by a
 #                                                                   fix patch the integrator has not committed yet
+PROPOSED_R4 = VERIF / "reports" / "C13-known-findings-r4.json"    # the same for strengthening round 4
 
 
 def known_findings():
@@ -62,7 +76,7 @@ def known_findings():
     ids = {f["id"] for f in listed}
     # VERIF_C13_NO_PROPOSED=1: judge a tree that already contains the round-5 patches (the state after the integrator's commit):
     # only the proposals WITHOUT `repaired_by` (the findings that stay) are read
-    proposals = json.loads(PROPOSED.read_text()) if PROPOSED.exists() else []
+    proposals = [f for pth in (PROPOSED, PROPOSED_R4) if pth.exists() for f in json.loads(pth.read_text())]
     if os.environ.get("VERIF_C13_NO_PROPOSED"):
         proposals = [f for f in proposals if "repaired_by" not in f]
     if proposals:
@@ -70,7 +84,16 @@ def known_findings():
     out = []
     for f in listed:
         m = f.get("match", {})
-        out.append((f, m.get("expr", refine.get(f["id"]))))
+        r = refine.get(f["id"])
+        if isinstance(r, dict):
+            # round 4: a refinement may also NARROW a listed finding by frames that must not be on the stack (`not_on_stack`):
+            # the class-only RecursionError entry (deep nesting) does not cover a recursion through the expansion of a lazy
+            # function / a `#deepdefine` macro
+            if "not_on_stack" in r and "not_on_stack" not in m:
+                f = dict(f, match=dict(m, not_on_stack=r["not_on_stack"]))
+                m = f["match"]
+            r = r.get("expr")
+        out.append((f, m.get("expr", r)))
     return out
 
 
@@ -126,8 +149,70 @@ def known_match(o, table=None, job=None):
             continue
         if "file" in m and exprs is not None and len(o) > 6 and o[6] not in exprs:
             continue        # same function, same exception class, but a crash site that is not the listed one
+        # round 4: `sites` = [file, function] frames one of which must be on the stack of the exception, `not_on_stack` = frames
+        # none of which may be (o[7] = the distinct jmc frames of the traceback)
+        stack = o[7] if len(o) > 7 and isinstance(o[7], list) else []
+        if "sites" in m and not any(fr in m["sites"] for fr in stack):
+            continue
+        if "not_on_stack" in m and any(fr in m["not_on_stack"] for fr in stack):
+            continue
         return f
     return None
+
+
+# ------------------------------------------------------------------------------------------------ round 4: Model/TokMacro.v
+def _mtok(t):
+    ty, line, col, string, quote = t
+    return f"R {ty} {coq_z(line)} {coq_z(col)} {coq_str(string)} {coq_bool(quote == '`')}"
+
+
+def macro_case_term(c) -> str | None:
+    """Coq term (Run.C13.mcase) of one observation of c13_run.py op "macro"; None when a text is not encodable"""
+    texts = [t[3] for t in c["toks"]] + list(c["clean"]) + [v for v in c["clean"].values() if v is not None] + list(c["repr"])
+    o = c["out"]
+    if o[0] == "ok":
+        texts += [t[3] for t in o[1]]
+    if not all(encodable(x) for x in texts):
+        return None
+    if o[0] == "ok":
+        out = "MOk " + coq_list(_mtok(t) for t in o[1])
+    elif o[0] == "diag":
+        out = "MDiag"
+    else:
+        out = {"IndexError": "MIndexError", "ValueError": "MValueError"}.get(o[1], "MOther")
+    clean = coq_list(f"({coq_str(k)}, {'None' if v is None else '(Some ' + coq_str(v) + ')'})" for k, v in c["clean"].items())
+    rp = coq_list(f"({coq_str(k)}, {coq_z(v)})" for k, v in c["repr"].items())
+    return f"MC {c['fn']}%nat {coq_list(_mtok(t) for t in c['toks'])} {coq_z(c['kp'])} {clean} {rp} ({out})"
+
+
+def macro_observations(rng, tier, programs):
+    """runs c13_run.py op "macro" on a sample of generated programs (traced calls) and on condition texts (direct calls)"""
+    n_prog = 240 if tier == "quick" else 1200
+    progs = rng.sample(programs, min(n_prog, len(programs)))
+    texts = []
+    for tname, text, plain in c13_gen.COND_TEMPLATES:
+        for i in range(len(plain)):
+            for f in c13_gen.MACRO_FORMS if tier != "quick" else c13_gen.CORE_FORMS + rng.sample(c13_gen.MACRO_FORMS[4:], 3):
+                texts.append(text.format(*[f if j == i else p_ for j, p_ in enumerate(plain)]))
+        for f in c13_gen.CORE_FORMS:
+            texts.append(text.format(*[f for _ in plain]))
+    texts += c13_gen.MACRO_FORMS + [a + " " + b for a in c13_gen.MACRO_FORMS[:12] for b in c13_gen.MACRO_FORMS[:12]]
+    texts = sorted(set(texts))
+    if tier == "quick":
+        texts = rng.sample(texts, min(260, len(texts)))
+    k = max(1, NCPU)
+    reqs = [dict(op="macro", programs=progs[i::k], texts=texts[i::k], cert=FULL_CERT) for i in range(k)]
+    with ThreadPoolExecutor(max_workers=NCPU) as ex:
+        res = list(ex.map(lambda r: run_py(RUNNER, r, timeout=900), reqs))
+    obs, seen = [], set()
+    for r in res:
+        for c in r["calls"]:
+            c.pop("lid", None)
+            key = json.dumps([c["fn"], c["toks"], c["kp"], c["out"]], sort_keys=True)
+            if key not in seen:
+                seen.add(key)
+                obs.append(c)
+    return obs, len(progs), len(texts), sum(r["traced"] for r in res)
 
 
 def main(tier: str) -> int:
@@ -138,7 +223,12 @@ def main(tier: str) -> int:
         "whole-compiler totality is not a theorem: it is searched over the single-token-edit neighbourhood of the corpus (c13_mut.py) "
         "with the real compiler (c13_run.py, 5 s alarm); the classification 'JMC diagnostic' is jmc.compile.exception.EXCEPTIONS of the tree under test",
         "translate_guards.py (fail-closed translator of len() guards into Coq obligations); the two producer facts it assumes "
-        "(statement parameters and elements of Tokenizer.parse results have length >= 1) are C13_tok_nonempty",
+        "(statement parameters and elements of Tokenizer.parse results have length >= 1) are C13_tok_nonempty; the length facts it "
+        "writes after a call of merge_vanilla_macro are C13_macro_merge_total / C13_macro_nonempty (Proofs/TokMacro.v merge_vm_post)",
+        "Model/TokMacro.v: hand-written model of Tokenizer.merge_vanilla_macro / merge_tokens / is_connected / Token.end and of the "
+        "three calling loops; clean_up_paren_token and len(repr(..)) are parameters (their observed values are part of each case; "
+        "the theorems assume only that clean_up_paren_token raises nothing but JMC diagnostics); tokens made by header macros "
+        "(`_macro_end`) are outside the model; tied by token-by-token equality on traced and direct calls",
         "harness: c13.py, c13_run.py, c13_mut.py, c13_corpus.py, c14_run.py, c14_lib.py, Run/C13.v, Run/C14.v",
     ]
     import time
@@ -161,29 +251,63 @@ def main(tier: str) -> int:
     items = tg.analyse_tree(REPO)
     obs = [o for o in items if o["kind"] == "obligation"]
     unanalysed = [o for o in items if o["kind"] == "unanalysed"]
-    nparts = 6
-    parts = [list(range(i, len(obs), nparts)) for i in range(nparts)]
-    probe_files = [(f"probe_{k}.v", tg.probe_file([obs[i] for i in idx])) for k, idx in enumerate(parts)]
-    outs = run_coq_files(PROP, [("Space.v", space_v)] + probe_files)
+    baseline = json.loads(BASELINE.read_text()) if BASELINE.exists() else {"open": []}
+    # round 4: ONE pass on the unchanged tree.  The baseline records (by the hash of their Coq statement) the obligations that
+    # lia is known not to close; every other obligation is written as a Lemma closed by `intros; lia` straight away (four files
+    # in parallel).  Only when one of these files does not check - the tree under test has an obligation that is neither
+    # closable nor listed - the probing pass of the earlier rounds runs (every obligation tried, never admitted) and the
+    # lemma files are written again from its result.  The hint can only make the count smaller, never accept anything.
+    hint_open = set(baseline.get("open_statements", []))
+    stmt_hash = [hashlib.sha1(tg.coq_statement(o).encode()).hexdigest()[:16] for o in obs]
+    nparts = 4
+
+    def guard_files(closed_set):
+        idx_parts = [[i for i in range(k, len(obs), nparts)] for k in range(nparts)]
+        return [(f"Guards_{k}.v", tg.guards_file(obs, closed_set, only=idx)) for k, idx in enumerate(idx_parts)]
+
+    closed = {i for i in range(len(obs)) if stmt_hash[i] not in hint_open}
+    outs = run_coq_files(PROP, [("Space.v", space_v)] + guard_files(closed))
     ok_space, out_space = outs[0]
     if not ok_space:
         ck.violation(dict(kind="regenerated-table-differs", what="Python's \\s code points differ from Tok.space_ranges",
                           python=sp, log=out_space[-1500:]), no_input=True)
-    closed = set()
-    for (ok, out), idx in zip(outs[1:], parts):
-        if not ok:
-            ck.violation(dict(kind="guard-probe-failed", log=out[-2000:]), no_input=True)
-            continue
-        for m in re.findall(r"DISCHARGED (\d+)", out):
-            closed.add(idx[int(m)])
-    closed_emitted = set(closed)
-    (ok_g, out_g), = run_coq_files(PROP, [("Guards.v", tg.guards_file(obs, closed))], clean=False)
+    ok_g = all(ok for ok, _ in outs[1:])
+    probed = False
     if not ok_g:
-        ck.violation(dict(kind="guard-obligations-do-not-check", log=out_g[-2000:]), no_input=True)
+        probed = True
+        pparts = [list(range(i, len(obs), 6)) for i in range(6)]
+        pouts = run_coq_files(PROP, [(f"probe_{k}.v", tg.probe_file([obs[i] for i in idx])) for k, idx in enumerate(pparts)], clean=False)
         closed = set()
+        for (ok, out), idx in zip(pouts, pparts):
+            if not ok:
+                ck.violation(dict(kind="guard-probe-failed", log=out[-2000:]), no_input=True)
+                continue
+            for m in re.findall(r"DISCHARGED (\d+)", out):
+                closed.add(idx[int(m)])
+        gouts = run_coq_files(PROP, guard_files(closed), clean=False)
+        ok_g = all(ok for ok, _ in gouts)
+        if not ok_g:
+            ck.violation(dict(kind="guard-obligations-do-not-check", log="\n".join(o[-800:] for ok, o in gouts if not ok)), no_input=True)
+            closed = set()
+    closed_emitted = set(closed)
+    if os.environ.get("VERIF_C13_REBASELINE"):
+        # maintenance: rewrite the baseline from a PROBED run of this tree (run with an empty / stale hint list)
+        if not probed:
+            pparts = [list(range(i, len(obs), 6)) for i in range(6)]
+            pouts = run_coq_files(PROP, [(f"probe_{k}.v", tg.probe_file([obs[i] for i in idx])) for k, idx in enumerate(pparts)], clean=False)
+            really = set()
+            for (ok, out), idx in zip(pouts, pparts):
+                for m in re.findall(r"DISCHARGED (\d+)", out):
+                    really.add(idx[int(m)])
+        else:
+            really = closed
+        BASELINE.write_text(json.dumps(dict(
+            open=sorted(f"{o['file']}:{o['function']}:{o['expr']}" for i, o in enumerate(obs) if i not in really),
+            open_statements=sorted({stmt_hash[i] for i in range(len(obs)) if i not in really})), indent=1))
+        baseline = json.loads(BASELINE.read_text())
+        closed = closed_emitted = closed & really if not probed else closed
     open_obs = [o for i, o in enumerate(obs) if i not in closed]
     open_keys = sorted(f"{o['file']}:{o['function']}:{o['expr']}" for o in open_obs)
-    baseline = json.loads(BASELINE.read_text()) if BASELINE.exists() else {"open": []}
     base_left = list(baseline["open"])
     new_open = []
     for k in open_keys:
@@ -271,6 +395,11 @@ def main(tier: str) -> int:
         "nested_decls": list(c13_gen.nested_decls()),
         "builtin_matrix": list(c13_gen.builtin_matrix(registry)),
         "arithmetic": list(c13_gen.arithmetic(rng, 60 if tier == "quick" else 600)),
+        "vanilla_macros": list(c13_gen.vanilla_macros(rng, tier)),
+        "custom_commands": list(c13_gen.custom_commands()),
+        "self_reference": list(c13_gen.self_reference()),
+        "new_json": list(c13_gen.new_json()),
+        "builtin_pairs": list(c13_gen.builtin_pairs(registry)),
     }
     gen_total = {k: len(v) for k, v in streams.items()}
     gen, gseen = [], set()
@@ -281,7 +410,7 @@ def main(tier: str) -> int:
             k = (job["src"], job["header"])
             if k not in gseen:
                 gseen.add(k)
-                if st in ("builtin_matrix", "arithmetic"):
+                if st in ("builtin_matrix", "arithmetic", "builtin_pairs"):
                     job = dict(job, alarm=3)      # thousands of numeric arguments: a count of 2^31 is a hang within 3 s as well
                 gen.append((st, cell, job))
     gen_run = {}
@@ -359,7 +488,7 @@ def main(tier: str) -> int:
 
     phase("classify")
     # ------------------------------------------------------------ tie: Tok.parse == Tokenizer.parse on traced mutants
-    n_tie = 1500 if tier == "quick" else 8000
+    n_tie = 1000 if tier == "quick" else 8000
     pool = [j for j, o in zip(jobs, out) if j["header"] is None and len(j["src"]) <= 4000]
     sample = rng.sample(pool, min(n_tie, len(pool)))
     chunks = [sample[i:i + 80] for i in range(0, len(sample), 80)]
@@ -399,18 +528,62 @@ def main(tier: str) -> int:
                               theorem="C13_tok_total / C13_tok_nonempty no longer speak about the code"), no_input=True)
 
     phase("tie")
+    # ------------------------------------------------------------ round 4 tie: Model/TokMacro.v == Tokenizer.merge_vanilla_macro
+    macro_programs = [g[2]["src"] for g in gen if g[0] == "vanilla_macros"] + [c["src"] for c in valid if c.get("kind") in ("macro_cond", "macro")]
+    mobs, m_nprog, m_ntext, m_traced = macro_observations(rng, tier, macro_programs)
+    cap = 2400 if tier == "quick" else 12000
+    if len(mobs) > cap:
+        loops_ = [c for c in mobs if c["fn"] != 0]
+        singles = [c for c in mobs if c["fn"] == 0]
+        mobs = loops_[:cap // 2] + rng.sample(singles, min(len(singles), cap - min(len(loops_), cap // 2)))
+    mterms = [(c, macro_case_term(c)) for c in mobs]
+    mterms = [(c, t) for c, t in mterms if t is not None]
+    mheader = COQ_HEADER + "From JMCV Require Import Run.C13.\n"
+    mbad, merrs = eval_cases(PROP, mheader, [t for _, t in mterms], per_file=300, checker="mmismatches", prefix="macro")
+    for e in merrs:
+        ck.violation(dict(kind="correspondence-file-failed", which="macro", log=e), no_input=True)
+    if len(mterms) < 200 or not any(c["fn"] == 1 for c, _ in mterms) or not any(c["out"][0] == "ok" and len(c["out"][1]) < len(c["toks"]) for c, _ in mterms):
+        ck.violation(dict(kind="macro-tie-ineffective", cases=len(mterms),
+                          note="too few observations of merge_vanilla_macro / no loop of condition_to_ast observed / no merge observed: "
+                               "C13_macro_* no longer speak about the code"), no_input=True)
+    m_reported = 0
+    # a NEGATIVE position is passed by no caller (regenerated call-site obligations; C13_macro_negative_position_refuted is why
+    # the theorems exclude it): the direct calls at -3..-1 are compared for the record only - a rewrite of the length test
+    # (`len(tokens) - key_pos` for `len(tokens[key_pos:])`) behaves differently there and nowhere else
+    neg_diff = [i for i in mbad if mterms[i][0]["fn"] == 0 and mterms[i][0]["kp"] < 0]
+    mbad = [i for i in mbad if i not in neg_diff]
+    for i in mbad:
+        c = mterms[i][0]
+        if m_reported >= 3:
+            break
+        m_reported += 1
+        is_program = c["src"] in macro_programs
+        if c["out"][0] == "exc":
+            # the real method raised an internal exception where the model (C13_macro_merge_total / _loops_total) says it cannot
+            ck.violation(dict(kind="macro-merge-internal-exception", program=c["src"] if is_program else None,
+                              condition_text=None if is_program else c["src"], function=["merge_vanilla_macro", "condition_to_ast loop", "_is_vanilla_func loop"][c["fn"]],
+                              called_from=c["caller"], tokens=c["toks"], key_pos=c["kp"], exception=c["out"][1],
+                              expected="the merged token list or a JMC diagnostic (C13_macro_merge_total, C13_macro_loops_total)"),
+                         )
+        else:
+            ck.violation(dict(kind="model-differs-from-merge-vanilla-macro", source=c["src"], function=c["fn"], tokens=c["toks"], key_pos=c["kp"],
+                              real=json.dumps(c["out"])[:1200], theorem="C13_macro_merge_total / C13_macro_loops_total / C13_macro_nonempty no longer speak about the code"),
+                         no_input=True)
+
+    phase("macro-tie")
     # obligations of this run's claim: the theorems of Props/C13.v, the lemmas written into Gen/C13/Guards.v (one per
     # subscript whose facts entail the bound; the others are listed under guard_obligations.open and are NOT part of the
     # claim) and the whitespace table; discharged = those that coqc accepted on this run
     n_lemmas = len(closed_emitted)
     ck.cov["obligations"] = len(pr["theorems"]) + n_lemmas + 1
     ck.cov["discharged"] = (len(pr["theorems"]) if pr["ok"] else 0) + (n_lemmas if ok_g else 0) + (1 if ok_space else 0)
-    ck.cov["checker_cmd"] = ("make -C coq Props/C13.vo Run/C13.vo; coqc -Q coq JMCV coq/Gen/C13/Guards.v coq/Gen/C13/Space.v "
+    ck.cov["checker_cmd"] = ("make -C coq Props/C13.vo Run/C13.vo; coqc -Q coq JMCV coq/Gen/C13/Guards_{0..3}.v coq/Gen/C13/Space.v "
                              "(regenerated from $JMC_REPO on this run; coqc 8.16.1, full .vo build)")
     ck.cov.update(dict(
-        evaluations=len(jobs) + len(calls), distinct_nontrivial=classes["diag"] + classes["internal"] + len(calls),
+        evaluations=len(jobs) + len(calls) + len(mterms), distinct_nontrivial=classes["diag"] + classes["internal"] + len(calls) + len(mterms),
         rule="one evaluation = one distinct mutant compiled by the real compiler (+ one per traced Tokenizer.parse call compared with "
-             "the model); non-trivial = mutants that no longer compile (diagnostic or internal) + distinct traced calls",
+             "the model, + one per distinct observation of merge_vanilla_macro / its loops compared with Model/TokMacro.v); non-trivial = "
+             "mutants that no longer compile (diagnostic or internal) + distinct traced calls + distinct macro observations",
         programs=len(valid), corpus=dict(total=len(cs), valid=len(valid)),
         neighbourhood=dict(total=total_neighbourhood, run=len(allm), generated_deep=len(deep), alphabet=ALPHABET,
                            string_alphabet=STRING_ALPHABET, head_symbols=HEAD_SYMBOLS, end_tokens=END_TOKENS),
@@ -425,7 +598,14 @@ def main(tier: str) -> int:
                    rule="cell = (enclosing construct, statement head, class of previous token, class of edited token) x operator"),
         guard_obligations=dict(total=len(obs), closed_by_lia=len(closed), open=open_keys, new_open_vs_baseline=new_open,
                                unanalysed=[f"{u['file']}:{u['function']}:{u['line']} {u['expr'][:60]} ({u['why']})" for u in unanalysed]),
-        tokenizer_calls_compared=len(calls), disagreements_checked=len(bad),
+        tokenizer_calls_compared=len(calls), disagreements_checked=len(bad) + len(mbad),
+        macro_tie=dict(cases=len(mterms), programs_traced=m_nprog, condition_texts=m_ntext, traced_calls=m_traced,
+                       by_function={str(k): sum(1 for c, _ in mterms if c["fn"] == k) for k in (0, 1, 2)},
+                       merges=sum(1 for c, _ in mterms if c["out"][0] == "ok" and len(c["out"][1]) < len(c["toks"])),
+                       beyond_end=sum(1 for c, _ in mterms if c["fn"] == 0 and c["kp"] >= len(c["toks"])),
+                       outcomes={k: sum(1 for c, _ in mterms if (c["out"][0] if c["out"][0] != "exc" else c["out"][1]) == k)
+                                 for k in sorted({(c["out"][0] if c["out"][0] != "exc" else c["out"][1]) for c, _ in mterms})},
+                       mismatches=len(mbad), negative_position_differences=len(neg_diff)),
         samples=[dict(mutation=l[1], program=j["src"][:120], outcome=o[:2]) for l, j, o in list(zip(labels, jobs, out))[:3]],
     ))
     return ck.finish()
@@ -433,6 +613,18 @@ def main(tier: str) -> int:
 
 def replay(path: str) -> int:
     rp = json.loads(open(path).read())
+    if rp.get("program") is None and rp.get("condition_text") is not None:
+        # round 4: a direct call of merge_vanilla_macro / the loops on the tokens of a condition text
+        r = run_py(RUNNER, dict(op="macro", programs=[], texts=[rp["condition_text"]], cert=FULL_CERT), timeout=300)
+        bad = [c for c in r["calls"] if c["out"][0] == "exc" and c["kp"] >= 0]
+        print("condition text:", repr(rp["condition_text"]))
+        print("expected: every call merge_vanilla_macro(tokens, key_pos >= 0) and both loops return a list or raise a JMC diagnostic")
+        for c in bad[:5]:
+            print("actual  :", ["merge_vanilla_macro", "condition_to_ast loop", "_is_vanilla_func loop"][c["fn"]], "key_pos", c["kp"],
+                  "tokens", [t[3] for t in c["toks"]], "->", c["out"])
+        if not bad:
+            print("actual  : no internal exception")
+        return 1 if bad else 0
     if rp.get("program") is None:
         print("replay file has no program (proof / regenerated tie breakage):", rp.get("kind"))
         return 1
